@@ -524,6 +524,30 @@ func templates() []template {
 				},
 			}
 		}},
+		{name: "unlock||unlock;trylock(leased-hold)", props: []string{"C02"}, bound: 2, prog: func(t *testing.T) conc.Program {
+			return conc.Program{
+				Setup: func() any {
+					w := newWorld(t, cfgFile(), "s1", "s2")
+					w.mustTry("s1", "x", nil, p32(60), "h")
+					return w
+				},
+				Threads: []conc.Thread{
+					{Name: "A", Run: func(c any) { c.(*world).unlock("A", "s1", "x", "h") }},
+					{Name: "B", Run: func(c any) {
+						w := c.(*world)
+						w.unlock("B", "s2", "x", "h")
+						w.tryLock("B", "s2", "x", nil, nil, "b")
+					}},
+				},
+				Finish: func(c any) conc.Outcome {
+					w := c.(*world)
+					return finish(w, func() {
+						capacityMonitor(w, "x", 1, 1)
+						linearizable(w, "x", 1, []string{w.keys["h"]})
+					})
+				},
+			}
+		}},
 		{name: "lock||unlock||trylock", props: []string{"C02", "C01", "C03"}, bound: 2, prog: func(t *testing.T) conc.Program {
 			return conc.Program{
 				Setup: func() any {
@@ -708,6 +732,29 @@ func templates() []template {
 							w.v("conc:session-end:lease-left:release-in-flight", "after session s1 ended %d lease timers exist, expected only the other session's", len(tm))
 						}
 					})
+				},
+			}
+		}},
+		{name: "destroy;lock(free-lock,ended-session)", props: []string{"C06"}, bound: 1, prog: func(t *testing.T) conc.Program {
+			// a blocking Lock of the session that reaches the server only after the session has ended (its
+			// request context is cancelled): it must not be granted a hold nobody will ever release
+			return conc.Program{
+				Setup: func() any {
+					w := newWorld(t, cfgFile(), "s1", "s2")
+					w.mustTry("s1", "x", nil, p32(60), "h1")
+					w.mustTry("s2", "z", nil, p32(60), "h2")
+					return w
+				},
+				Threads: []conc.Thread{
+					{Name: "D", Run: func(c any) {
+						w := c.(*world)
+						w.disconnect("D", "s1")
+						w.lock("D", "s1", "y", nil, nil, nil, "late")
+					}},
+				},
+				Finish: func(c any) conc.Outcome {
+					w := c.(*world)
+					return finish(w, func() { sessionEndMonitor(w, "s1", []string{"x", "y"}, map[string]string{"z": "h2"}, "request-after-end") })
 				},
 			}
 		}},
